@@ -112,7 +112,7 @@ class Sim:
             if c.conn is None:
                 if c.can_connect() and a["opens"] < self.max_opens:
                     acts.append(("open", X))
-                    if "failopen" in self.adv and self.failopens < 1:
+                    if ("failopen" in self.adv or ("failopen-reconnect" in self.adv and a["opens"] > 0)) and self.failopens < (2 if "failopen-reconnect" in self.adv else 1):
                         acts.append(("failopen", X))
             else:
                 acts.append(("drop", X))
